@@ -219,47 +219,56 @@ IMP_THEOREMS = ["gen_impersonate_ip_eq", "gen_impersonate_options_eq", "gen_impe
                 "parsed_wsize_ok", "C05_translated_code_sound", "C05_translated_code_no_raise", "C14_translated_options"]
 
 
-def gen_tie_imp():
-    """Second translator: pyp0f/impersonate/tcp.py -> Gallina in the random-tape monad (translate/imp2coq.py), proved equal to the
-    hand-written impersonation model (coq/Gen/GenImpP.v).  Cached like gen_tie()."""
-    h = hashlib.sha1()
-    files = [REPO / f for f in IMP_SOURCES] + [VERIF / "translate" / "imp2coq.py", COQ / "Gen" / "GenImpP.v", COQ / "Gen" / "GenImpC.v", COQ / "Proofs" / "ImpSoundP.v", COQ / "Model" / "Imperson.v", COQ / "Model" / "Sig.v",
-                                               COQ / "Model" / "Bits.v", COQ / "Model" / "SigParse.v", COQ / "Proofs" / "SigTextP.v"]
-    for f in files:
-        h.update(f.read_bytes() if f.exists() else b"<missing>")
-    key = h.hexdigest()
+SIG_THEOREMS = ["gen_is_wildcard_eq", "gen_parse_number_in_range_eq", "gen_parse_from_options_eq", "gen_split_parts_eq", "gen_parse_ttl_eq", "gen_parse_window_eq",
+                "gen_parse_options_eq", "gen_parse_quirks_eq", "gen_TCPSignature_parse_eq", "gen_MTUSignature_parse_eq",
+                "C10_translated_tcp_ranges", "C09_translated_sig_roundtrip", "C18_translated_layout", "C18_translated_quirks", "C10_translated_mtu_range"]
+
+
+def gen_tie_single(tag, translator, generated, proofs, theorems, model_files):
+    """One translator -> one generated file -> proof files.  Cached on the generated text, the proof files and the model files;
+    failures are recomputed on every run; the compile step is serialised by a lock."""
     WORK.mkdir(exist_ok=True)
     (WORK / "gen_tie_cache").mkdir(exist_ok=True)
-    cache = WORK / "gen_tie_cache" / ("imp-" + key + ".json")
-    if cache.exists():
-        try:
-            c = json.load(open(cache))
-            if c.get("key") == key:
-                return c["result"]
-        except Exception:
-            pass
-    res = {"ok": False, "obligations": len(IMP_THEOREMS), "discharged": 0, "theorems": IMP_THEOREMS, "detail": ""}
+    res = {"ok": False, "obligations": len(theorems), "discharged": 0, "theorems": theorems, "detail": ""}
     lock = open(WORK / "gen_tie.lock", "w")
     fcntl.flock(lock, fcntl.LOCK_EX)
-    rc, out = sh("%s %s %s %s" % (PY, VERIF / "translate" / "imp2coq.py", REPO, COQ / "Gen" / "GeneratedImp.v"), 120)
-    if rc != 0:
-        res["detail"] = "translator: " + out.strip()[-400:]
-    else:
-        for ext in (".vo", ".vok", ".vos", ".glob"):
-            for n in ("GeneratedImp", "GenImpP", "GenImpC"):
-                q = COQ / "Gen" / (n + ext)
-                if q.exists():
-                    q.unlink()
-        rc, out = sh("timeout 600 coqc -Q . PV Gen/GeneratedImp.v && timeout 1200 coqc -Q . PV Gen/GenImpP.v && timeout 600 coqc -Q . PV Gen/GenImpC.v", 2500, cwd=COQ)
-        if rc == 0 and out.count("Closed under the global context") == len(IMP_THEOREMS):
+    try:
+        rc, out = sh("%s %s %s %s" % (PY, VERIF / "translate" / translator, REPO, COQ / "Gen" / generated), 120)
+        if rc != 0:
+            res["detail"] = "translator: " + out.strip()[-400:]
+            return res
+        h = hashlib.sha1()
+        for f in [COQ / "Gen" / generated] + [COQ / "Gen" / pf for pf in proofs] + [COQ / f for f in model_files] + [VERIF / "translate" / translator]:
+            h.update(f.read_bytes() if f.exists() else b"<missing>")
+        cache = WORK / "gen_tie_cache" / ("%s-%s.json" % (tag, h.hexdigest()))
+        if cache.exists():
+            return json.load(open(cache))
+        rc, out = sh(" && ".join("timeout 1200 coqc -Q . PV Gen/%s" % f for f in [generated] + proofs), 3900, cwd=COQ)
+        if rc == 0 and out.count("Closed under the global context") == len(theorems):
             res["ok"] = True
-            res["discharged"] = len(IMP_THEOREMS)
+            res["discharged"] = len(theorems)
+            json.dump(res, open(cache, "w"))
         else:
-            res["detail"] = "Gen/GenImpP.v no longer checks (the generated definition differs from the model): " + out.strip()[-600:]
-    if res["ok"]:                             # failures are recomputed on every run
-        json.dump({"key": key, "result": res}, open(cache, "w"))
-    lock.close()
-    return res
+            res["detail"] = "Gen/%s no longer checks (the definition generated from the source differs from the model): %s" % (proofs[0], out.strip()[-600:])
+        return res
+    finally:
+        lock.close()
+
+
+def gen_tie_imp():
+    """pyp0f/impersonate/tcp.py -> Gallina in the random-tape monad (translate/imp2coq.py), proved equal to the hand-written
+    impersonation model (coq/Gen/GenImpP.v), corollaries in coq/Gen/GenImpC.v."""
+    return gen_tie_single("imp", "imp2coq.py", "GeneratedImp.v", ["GenImpP.v", "GenImpC.v"], IMP_THEOREMS,
+                          ["Model/Imperson.v", "Model/Sig.v", "Model/Bits.v", "Model/SigParse.v", "Model/Wire.v", "Model/Options.v", "Spec/C05.v", "Proofs/SigTextP.v",
+                           "Proofs/ImpSoundP.v", "Proofs/SatCohP.v", "Proofs/DbParseP.v"])
+
+
+def gen_tie_sig():
+    """database/parse/utils.py, wildcard.py, signatures/tcp.py, signatures/mtu.py -> Gallina over text in the res monad
+    (translate/sig2coq.py), proved equal to Model/SigParse.v (coq/Gen/GenSigP.v), corollaries in coq/Gen/GenSigC.v."""
+    return gen_tie_single("sig", "sig2coq.py", "GeneratedSig.v", ["GenSigP.v", "GenSigC.v"], SIG_THEOREMS,
+                          ["Model/Text.v", "Model/SigParse.v", "Model/Sig.v", "Model/Bits.v", "Model/Dump.v", "Proofs/DbParseP.v", "Proofs/DumpP.v", "Proofs/SigTextP.v",
+                           "Proofs/TextP.v", "Proofs/BitsP.v"])
 
 
 # --------------------------------------------------------------------------- model side
@@ -373,18 +382,27 @@ def run_check(prop, tier, replay=None):
     else:
         proof = prove(prop)
         if getattr(mod, "GEN_TIE", False):
-            imp = getattr(mod, "GEN_TIE") == "imp"
-            g = gen_tie_imp() if imp else gen_tie(getattr(mod, "GEN_TIE"))
-            proof["obligations"] += g["obligations"]
-            proof["discharged"] += g["discharged"]
-            proof["theorems"] = proof.get("theorems", []) + [("Gen/GenImpP.v:" + t if imp else "Gen/" + t) for t in g["theorems"]]
-            proof["checker_cmd"] = proof.get("checker_cmd", "") + (" && translate/imp2coq.py /repo coq/Gen/GeneratedImp.v && coqc Gen/GeneratedImp.v Gen/GenImpP.v" if imp else
-                                                                   " && translate/py2coq.py /repo coq/Gen && coqc Gen/Generated_<group>.v Gen/GenP_<group>.v")
-            proof["gen_tie"] = g
-            if not g["ok"] and proof["ok"]:
-                proof["ok"] = False
-                proof["broken"] = "code-to-model equivalence (translator + %s): " % ("Gen/GenImpP.v" if imp else "Gen/GenP_<group>.v") + g["detail"]
-                proof["log"] = g["detail"]
+            spec = getattr(mod, "GEN_TIE")
+            spec = [spec] if isinstance(spec, str) else list(spec)
+            groups = [x for x in spec if x in GEN_GROUPS]
+            ties = []
+            if groups:
+                ties.append(("Gen/", "Gen/GenP_<group>.v", " && translate/py2coq.py /repo coq/Gen && coqc Gen/Generated_<group>.v Gen/GenP_<group>.v", gen_tie(groups)))
+            if "imp" in spec:
+                ties.append(("Gen/GenImpP.v:", "Gen/GenImpP.v", " && translate/imp2coq.py /repo coq/Gen/GeneratedImp.v && coqc Gen/GeneratedImp.v Gen/GenImpP.v Gen/GenImpC.v", gen_tie_imp()))
+            if "sig" in spec:
+                ties.append(("Gen/GenSigP.v:", "Gen/GenSigP.v", " && translate/sig2coq.py /repo coq/Gen/GeneratedSig.v && coqc Gen/GeneratedSig.v Gen/GenSigP.v Gen/GenSigC.v", gen_tie_sig()))
+            proof["gen_tie"] = {}
+            for prefix, where, cmd, g in ties:
+                proof["obligations"] += g["obligations"]
+                proof["discharged"] += g["discharged"]
+                proof["theorems"] = proof.get("theorems", []) + [prefix + t for t in g["theorems"]]
+                proof["checker_cmd"] = proof.get("checker_cmd", "") + cmd
+                proof["gen_tie"][where] = g
+                if not g["ok"] and proof["ok"]:
+                    proof["ok"] = False
+                    proof["broken"] = "code-to-model equivalence (translator + %s): " % where + g["detail"]
+                    proof["log"] = g["detail"]
 
     coqchk = None
     if tier == "thorough" and proof.get("ok") and not replay:
